@@ -185,6 +185,7 @@ pub fn run(tier: Tier, replay: Option<&str>) -> i32 {
     progs.extend(progs::escape_programs());
     progs.extend(progs::id_programs());
     progs.extend(progs::alias_method_programs());
+    progs.extend(progs::shape_programs());
     progs.dedup();
     let n = progs.len() as u64;
     let mut rep = ctx.par_range("U_P programs x two printers", n, 16, || (), |_, i, rep| {
